@@ -54,6 +54,9 @@ ASSUMPTIONS = [
     "a RawSocket limit of 2^9 cannot be driven: the session's own HELLO (696-871 octets) does not fit, so no session exists",
     "late progress is only driven for an invocation that was cancelled by INTERRUPT while its endpoint keeps working (the "
     "endpoint is not at fault); calling progress() after the endpoint's own result is regarded as API misuse and not driven",
+    "the truth value of an object registered through session.register(obj) is application state (always truthy, always "
+    "falsy, falsy after registration, toggling; via __bool__ or __len__); an endpoint that calls details.progress(..) "
+    "unconditionally raises TypeError when the caller did not ask for progress and must then be answered with an ERROR",
     "obligations lapse when the callee itself tears the session down; that event is reported as its own violation class "
     "because the router gave no cause for it",
     "not driven: payload encryption (C20), transport loss while invocations are pending (C06), check_types, forward_for, "
@@ -70,6 +73,8 @@ DECIDING = {
     "oversized_cases": 1000, "unserializable_cases": 1000, "combos": 16, "families": 6,
     "unregister_requests": 1000, "unregistered_delivered": 800, "replies_due_after_unregistered": 500,
     "inv_between_unregister_and_reply": 200, "unregister_refused": 100,
+    "explicit_false_receive_progress_checked": 2000, "explicit_false_progressive_endpoint": 500, "progress_idiom": 2,
+    "bound_object_compared": 3000, "falsy_object_invocations": 1000, "object_truth": 6,
 }
 
 COMBOS = [(t, s) for t in ("websocket", "rawsocket") for s in ("json", "msgpack", "cbor", "ubjson")]
@@ -125,7 +130,12 @@ class Gen:
 
     def proc(self, style=None, det="?"):
         r = self.rng
-        return {"style": style or r.choice(self.styles), "det": r.choice(DETS) if det == "?" else det}
+        p = {"style": style or r.choice(self.styles), "det": r.choice(DETS) if det == "?" else det}
+        if p["style"] == "method" and r.random() < 0.7:
+            # decorated-object registration whose object is falsy / changes its truth value between invocations
+            p["truth"] = r.choice(["truthy", "falsy", "late-falsy", "late-falsy", "toggle", "toggle"])
+            p["via"] = r.choice(["bool", "len"])
+        return p
 
     def rids(self, n):
         r = self.rng
@@ -158,7 +168,9 @@ class Gen:
             inv["extra"] = [r.choice(EXTRA_VALUES) for _ in range(r.choice([0, 0, 1, 2, 4]))]
         if shape in ("both", "kwargs"):
             inv["kw"] = {k: r.choice(EXTRA_VALUES) for k in r.sample(["k1", "k2", "x", "opt", "progress", "caller"], r.choice([0, 1, 1, 2, 3]))}
-        inv["rp"] = (r.random() < 0.6) if rp is None else rp
+        inv["rp"] = (r.random() < 0.5) if rp is None else rp
+        if not inv["rp"] and r.random() < 0.5:
+            inv["rp_false"] = True          # "receive_progress": false sent explicitly instead of being absent
         inv["caller"] = self.caller(pi)
         return inv
 
@@ -172,7 +184,10 @@ class Gen:
             out = r.choice(OUTS) if r.random() < 0.5 else r.choice([["ret", "tag"], ["ret", "cr"], ["ret", "none"], ["raise", "app"], ["raise", "unmapped"]])
         if progress is None:
             progress = [r.choice(PROGRESS_KINDS) for _ in range(r.choice([0, 0, 1, 2, 3]))] if proc["det"] else []
-        return {"mode": mode, "out": list(out), "progress": list(progress)}
+        plan = {"mode": mode, "out": list(out), "progress": list(progress)}
+        if progress and proc["det"] and r.random() < 0.3:
+            plan["progress_unconditional"] = True      # endpoint calls details.progress(..) without checking it
+        return plan
 
     def base(self, procs, invs, steps, limit, family):
         # an invocation without any payload carries no tag: the endpoint attributes it by procedure, so at most one
